@@ -69,7 +69,12 @@ pub fn unescape(s: &str) -> Result<String, String> {
                 } else {
                     return Err(format!("unknown entity &{ent};"));
                 };
-                out.push(char::from_u32(v).ok_or("bad char ref")?);
+                let ch = char::from_u32(v).ok_or("bad char ref")?;
+                // a character reference must denote a character of the Char production
+                if !matches!(ch, '\t' | '\n' | '\r' | '\u{20}'..='\u{D7FF}' | '\u{E000}'..='\u{FFFD}' | '\u{10000}'..) {
+                    return Err(format!("character reference to a non-XML character U+{v:04X}"));
+                }
+                out.push(ch);
             }
         }
         rest = &after[j + 1..];
@@ -445,6 +450,15 @@ pub fn leaf_equiv(a: &str, b: &str) -> bool {
         time::OffsetDateTime::parse(tb, &time::format_description::well_known::Rfc3339),
     ) {
         return x.unix_timestamp_nanos().div_euclid(1_000_000) == y.unix_timestamp_nanos().div_euclid(1_000_000);
+    }
+    // IMF-fixdate: the day-name is redundant information; a recipient that does not cross-check it against the date is
+    // within RFC 9110's "robust in parsing" latitude (stated don't-care)
+    fn imf(s: &str) -> Option<&str> {
+        let (day, rest) = s.split_once(", ")?;
+        (["Mon", "Tue", "Wed", "Thu", "Fri", "Sat", "Sun"].contains(&day) && rest.len() == 24 && rest.ends_with(" GMT")).then_some(rest)
+    }
+    if let (Some(x), Some(y)) = (imf(ta), imf(tb)) {
+        return x == y;
     }
     false
 }
